@@ -500,7 +500,6 @@ fn replay(check: &dyn Check, opt: &Options, path: &str) -> i32 {
     let choices: Vec<u32> = doc["choices"].as_array().map(|a| a.iter().map(|x| x.as_u64().unwrap_or(0) as u32).collect()).unwrap_or_default();
     let run = doc["run"].as_u64().unwrap_or(0);
     let tier = if doc["tier"].as_str() == Some("thorough") { Tier::Thorough } else { Tier::Quick };
-    let _ = opt;
     let ctx = RunCtx { tier, run, want_sample: true };
     let e = execute(check, &ctx, Choices::replay(choices), true);
     for l in e.text.as_deref().unwrap_or(&[]) {
@@ -512,6 +511,11 @@ fn replay(check: &dyn Check, opt: &Options, path: &str) -> i32 {
     }
     match &e.out.violation {
         Some(v) => {
+            let known = load_known(&opt.verif_dir);
+            if let Some(k) = matches_known(&known, id, v) {
+                println!("KNOWN-FINDING: property={id} {} [{}] (replay of {path}: class {})", k["description"].as_str().unwrap_or(""), k["rule"].as_str().unwrap_or(""), v.class());
+                return 0;
+            }
             let same_class = doc["violation"]["rule"].as_str() == Some(&v.rule);
             let same_hash = doc["trace_hash"].as_str() == Some(&format!("{:016x}", e.trace_hash));
             println!("VIOLATION property={id} replay={path}");
